@@ -108,4 +108,9 @@ end Interp
 def Res.unloc {α} (f : α → α) (r : Res α) : Res α :=
   (match r.1 with | .ok a => .ok (f a) | .error e => .error e.unloc, r.2.unloc)
 
+/-- an outcome without locations: the value without the locations in its code, or the error kind -/
+def outcomeUnloc : Except SErr (Option Value) → Except Err (Option Value)
+  | .ok v => .ok (v.map Value.unloc)
+  | .error (e, _) => .error e
+
 end Ruschm
